@@ -247,6 +247,56 @@ pub fn build_tables(kind: &str, k: u32, region: usize) -> Vec<u8> {
     out
 }
 
+/// data-reference variant: one track whose media information box holds K data information boxes of
+/// 64 bytes.  Each data reference box announces more entries than fit into it -- as many as there are
+/// small boxes between itself and the last data information box -- and its second entry ends inside
+/// the following box.  A reader that stops at the end of the data reference looks at two entries per
+/// box; one that goes by the count alone walks over all the following ones, K times.
+pub fn build_drefwalk(k: u32) -> Vec<u8> {
+    let mut out = ser(&FtypBox { major_brand: FourCC::from(*b"isom"), minor_version: 0, compatible_brands: vec![] });
+    let mut mvhd = MvhdBox::default();
+    mvhd.timescale = 1000;
+    mvhd.next_track_id = 2;
+    let mut tkhd = TkhdBox::default();
+    tkhd.track_id = 1;
+    let mut mdhd = MdhdBox::default();
+    mdhd.timescale = 1000;
+    let mut hdlr = HdlrBox::default();
+    hdlr.handler_type = FourCC::from(*b"vide");
+    let mut stsd = StsdBox::default();
+    let mut hev1 = Hev1Box::default();
+    hev1.hvcc.configuration_version = 1;
+    stsd.hev1 = Some(hev1);
+    let mut stbl = ser(&stsd);
+    stbl.extend_from_slice(&ser(&SttsBox::default()));
+    stbl.extend_from_slice(&ser(&StscBox::default()));
+    stbl.extend_from_slice(&ser(&StszBox::default()));
+    stbl.extend_from_slice(&ser(&StcoBox::default()));
+    let mut minf = ser(&VmhdBox::default());
+    for j in 0..k {
+        let count = 2 * (k - 1 - j) + 1;
+        let mut dref = vec![0u8; 4];
+        dref.extend_from_slice(&count.to_be_bytes());
+        dref.extend_from_slice(&bx(b"skip", &[0u8; 8]));
+        // an entry of 48 bytes (not larger than the data reference box): 24 of them are here
+        dref.extend_from_slice(&48u32.to_be_bytes());
+        dref.extend_from_slice(b"skip");
+        dref.extend_from_slice(&[0u8; 16]);
+        minf.extend_from_slice(&bx(b"dinf", &bx(b"dref", &dref)));
+    }
+    minf.extend_from_slice(&bx(b"free", &[0u8; 32]));
+    minf.extend_from_slice(&bx(b"stbl", &stbl));
+    let mut mdia = ser(&mdhd);
+    mdia.extend_from_slice(&ser(&hdlr));
+    mdia.extend_from_slice(&bx(b"minf", &minf));
+    let mut trak = ser(&tkhd);
+    trak.extend_from_slice(&bx(b"mdia", &mdia));
+    let mut moov = ser(&mvhd);
+    moov.extend_from_slice(&bx(b"trak", &trak));
+    out.extend_from_slice(&bx(b"moov", &moov));
+    out
+}
+
 /// tracks x fragments variant: T tracks and F movie fragments of one tiny track fragment each.  What
 /// open() builds should be linear in the file (T + F); a reader that reserves per-track room
 /// for every fragment needs T x F.
@@ -320,6 +370,7 @@ pub fn run(tn: u32, k: u32, kind: &str, id: u64, out: &mut Out) {
         "esds" => build_esds(tn, k as usize * 1024),
         "esds4" => build_esds_at(tn, k as usize * 1024, true),
         "fragwalk" => build_fragwalk(tn, k),
+        "drefwalk" => build_drefwalk(tn),
         "tracksmoofs" => build_tracks_moofs(tn, k),
         x if x.starts_with("tbl-") => build_tables(x, tn, k as usize * 1024),
         _ => build(tn, k, kind == "avc"),
